@@ -361,6 +361,11 @@ def _call_method(ex, base, attr, args, kwargs, st, node, spec, after=None):
             raise Unsupported(f"method {static}.{attr} at line {getattr(node, 'lineno', '?')} in {ex.cx.fn}")
         mcls, fnode = m
         c = w.contract_for(f"{mcls}.{attr}", ex.cx)
+        is_static = fnode is not None and any(isinstance(d, ast.Name) and d.id == "staticmethod" for d in fnode.decorator_list)
+        if is_static:
+            if c is not None:
+                return apply_contract(ex, c, None, args, kwargs, st, node, spec)[0], None
+            return inline_function(ex, fnode, None, args, kwargs, st, node, spec, name=f"{mcls}.{attr}", cls=mcls)[0], None
         if c is not None:
             return apply_contract(ex, c, base, args, kwargs, st, node, spec)
         if fnode is None:
